@@ -216,6 +216,36 @@ fn case(rec: &mut Rec, ctx: &Ctx, idx: u64, rng: &mut ChaCha20Rng) {
       }
     }
   }
+  // consecutive calls whose epoch||measurement bytes coincide (boundary shifts):
+  // each must still equal what the core library derives for its own inputs
+  if idx % 3 == 0 {
+    let s: String = (0..rng.gen_range(2..10)).map(|_| char::from(rng.gen_range(0x30u8..0x7b))).collect();
+    let suffix = rand_bytes_in(rng, 0..6);
+    let t2 = rng.gen_range(1..=4u32);
+    for i in 0..=s.len() {
+      let e2 = &s[..i];
+      let mut m2 = s.as_bytes()[i..].to_vec();
+      m2.extend_from_slice(&suffix);
+      rec.ev("create_share_boundary_shift");
+      let js = create_share(&m2, t2, e2);
+      let got = match parse(rec, &js, &json!({"measurement": hex(&m2), "epoch": e2, "threshold": t2})) {
+        Some(g) => g,
+        None => return,
+      };
+      let core2 = match MessageGenerator::new(SingleMeasurement::new(&m2), t2, e2.as_bytes()).share_with_local_randomness() {
+        Ok(c) => c,
+        Err(_) => return,
+      };
+      if got.key != core2.key || got.tag != core2.tag {
+        rec.violation(
+          "create-share:history-dependent",
+          format!("create_share(measurement {:?}, epoch {:?}) right after a call whose epoch||measurement bytes are the same returned a key/tag other than the core library's for these inputs", String::from_utf8_lossy(&m2), e2),
+          json!({"concatenation": s, "split": i, "threshold": t2}),
+        );
+        return;
+      }
+    }
+  }
   if idx < 2 {
     rec.sample(json!({"input": input, "create_share_output": create_share(&m, t, &epoch), "group_result": want}));
   }
